@@ -86,6 +86,73 @@ PROBE_CONTEXTS = [
 ]
 
 
+# ---------------------------------------------------------------------------------------------
+# Round 3 (seeded C06-r3m1 / C06-r3m2): evaluation ORDER / side effects and verbatim text
+#  * every construct that carries interpolation is evaluated in both styles, whether or not its
+#    text survives into the output: a side-effecting function called inside it (a !global counter)
+#    must advance the counter identically, observed by a later declaration and an @if branch;
+#  * quoted strings embedded in text that grass treats as an unquoted string (custom property
+#    values, plain-CSS function arguments, url(), unquote) keep every character in both styles.
+# ---------------------------------------------------------------------------------------------
+SIDE_EFFECT_SITES = [
+    ("loud-comment", "/* c #{next()} */"),
+    ("loud-comment-in-rule", "q { /* c #{next()} */ r: s; }"),
+    ("preserved-comment", "/*! c #{next()} */"),
+    ("loud-comment-multiline", "/* a\n * #{next()}\n */"),
+    ("loud-comment-after-decl", "q { r: s; /* #{next()} */ }"),
+    ("loud-comment-in-media", "@media screen { /* #{next()} */ q { r: s; } }"),
+    ("loud-comment-in-mixin", "@mixin m { /* #{next()} */ } q { @include m; }"),
+    ("loud-comment-in-function-free-rule", "q { @if true { /* #{next()} */ } }"),
+    ("loud-comment-in-each", "@each $i in a b { /* #{$i} #{next()} */ }"),
+    ("empty-rule", "q-#{next()} { }"),
+    ("empty-media", "@media (w: #{next()}) { }"),
+    ("placeholder-rule", "%p-#{next()} { r: s; }"),
+    ("null-declaration", "q { r-#{next()}: null; }"),
+    ("custom-property", "q { --c: #{next()}; }"),
+    ("supports-empty", "@supports (a: #{next()}) { }"),
+    ("unknown-at-rule", "@foo #{next()};"),
+    ("import-css", '@import url("x#{next()}.css");'),
+    ("keyframes", "@keyframes k#{next()} { from { r: s; } }"),
+    ("debug-free-variable", "$unused: next();"),
+    ("if-function", "q { r: if(true, 1, next()); }"),
+    ("and-short-circuit", "q { r: false and next(); }"),
+    ("or-short-circuit", "q { r: true or next(); }"),
+]
+
+
+def side_effect_cases():
+    cases = []
+    pre = ('$n: 0;\n@function next() { $n: $n + 1 !global; @return $n; }\n').replace("\\n", "\n")
+    post = ('\nz { p: next(); @if $n == 1 { b: one; } @else if $n == 2 { b: two; } @else { b: many-#{$n}; } }\n').replace("\\n", "\n")
+    for name, site in SIDE_EFFECT_SITES:
+        site = site.replace("\\n", "\n")
+        cases.append({"key": f"side-effect:{name}", "src": pre + site + post, "family": "side-effect", "syntax": "scss"})
+        cases.append({"key": f"side-effect:{name}:twice", "src": pre + site + "\n" + site.replace("q", "q2").replace("k#", "k2#") + post,
+                      "family": "side-effect", "syntax": "scss"})
+    return cases
+
+
+VERBATIM_TEXTS = [
+    '--sep: ", "', "--sep: ', '", '--x: "a ,b" , "c,  d"', '--y: {"k": "v, w"}', '--z: [ "a,  b" ]',
+    'p: var(--font, "Helvetica Neue, Arial", sans-serif)', 'p: foo("a, b", c)', 'p: foo(bar("x,  y"), "z")',
+    "p: unquote('\"a, b\"')", 'p: url("a, b")', 'p: url(a,b)', 'p: env(x, "a, b")', 'p: attr(x) ", " counter(n)',
+    'p: "a, b" + c', 'p: c + "a, b"', 'p: "#{"a,  b"}"', 'p: #{"a,  b"}', 'p: #{\'"a, b"\'}', 'p: foo(#{\'"a, b"\'})',
+    'p: var(--a,"x, y")', 'p: var(--a, "x ; y")', "p: foo('a > b', 'c + d', 'e ~ f')", 'p: foo("a  b")', 'p: foo("(a, b)")',
+    'p: foo("a: b", "c :d")', 'p: foo("{a, b}")', 'p: foo("a,\\\"b, c")', 'font-family: "Helvetica Neue, Arial", sans-serif',
+    'p: progid:DXImageTransform.Microsoft.gradient(startColorstr="#80,  0", endColorstr="a, b")',
+    'p: "a" , "b,  c"', 'p: ("a, b", "c")', 'p: [ "a,  b" ]', 'p: -foo-bar("a,  b")', 'p: calc(var(--x, "a, b") + 1px)',
+    'p: element("a, b")', 'p: image-set("a, b.png" 1x, "c,d.png" 2x)', 'p: expression("a, b")',
+]
+
+
+def verbatim_cases():
+    cases = []
+    for i, t in enumerate(VERBATIM_TEXTS):
+        for j, tmpl in enumerate(("a {{ {t}; }}\n", "a {{ o: x; {t} }}\nz {{ y: w; }}\n", "@media screen {{ a {{ {t}; b: c }} }}\n")):
+            cases.append({"key": f"verbatim:{i}:{j}", "src": tmpl.format(t=t), "family": "verbatim", "syntax": "scss"})
+    return cases
+
+
 def probe_cases(rng, n):
     """All (value, context) pairs (shuffled, capped at n); each is a tiny stylesheet of its own so a
     compile error in one probe cannot hide another.  Selector-name probes are separate."""
@@ -323,7 +390,10 @@ def run(tier, seed):
         f"operators, lists, calculations, selector functions, rgb()/hsl() with var(), meta.calc-args, values ending in an escaped ;) x "
         f"{len(PROBE_CONTEXTS) + 2} observers (str-length/str-index/str-slice of the interpolated text, ==, @if branch, "
         "property/selector/media-query names built from it, and the value itself as last / non-last declaration, in a list, "
-        "inside @media). A case is distinct by "
+        "inside @media); evaluation-order probes (a !global counter advanced from interpolation inside loud/preserved comments, "
+        "empty rules and at-rules, placeholders, null declarations, custom properties, unknown at-rules, @import url, @keyframes names, "
+        "lazy if()/and/or, observed by a later declaration and @if branch); verbatim-text probes (quoted strings containing `, ` and other "
+        "spacing inside custom properties, plain-CSS function arguments, url(), unquote, interpolation). A case is distinct by "
         "its input and non-trivial when both styles compile and the two texts differ.")
     ck.assumptions = ["outputs observed through tools/cssread.py; identification rules of the canonicaliser are listed in `rule`",
                       "Eval has no style parameter in the model (C06_eval_style_free is true by construction)"]
@@ -352,6 +422,8 @@ def run(tier, seed):
                                        for i, c in enumerate(tcases) if i < n_clean], "gen-tree")
     log(f"[C06] gen-tree done at {round(_t.time() - ck.t0)}s")
     fails += compare_styles(ck, pool, probe_cases(ck.rng, 10 ** 6), "probe")
+    fails += compare_styles(ck, pool, side_effect_cases(), "side-effect")
+    fails += compare_styles(ck, pool, verbatim_cases(), "verbatim")
     log(f"[C06] probes done at {round(_t.time() - ck.t0)}s")
     fails += compare_styles(ck, pool, [{"key": "prog:" + str(i), "src": cc.gen_program(ck.rng), "syntax": "scss"} for i in range(n_prog)], "gen-prog")
     log(f"[C06] gen-prog done at {round(_t.time() - ck.t0)}s")
